@@ -185,12 +185,20 @@ func c04r9(c *core.Ctx) {
 		}
 		// loop variables of all enclosing loops
 		loopVars := map[types.Object]bool{}
+		elemVars := map[types.Object]bool{}
 		core.InspectNoLits(f.Body, func(x ast.Node) bool {
 			switch l := x.(type) {
 			case *ast.RangeStmt:
 				if l.Body.Pos() <= call.Pos() && call.End() <= l.Body.End() {
 					if idn, ok := l.Key.(*ast.Ident); ok && idn.Name != "_" {
 						loopVars[m.Info.ObjectOf(idn)] = true
+					}
+					// the element variable of a range over a slice or array: one element per iteration
+					if idn, ok := l.Value.(*ast.Ident); ok && idn.Name != "_" {
+						switch m.Info.TypeOf(l.X).Underlying().(type) {
+						case *types.Slice, *types.Array:
+							elemVars[m.Info.ObjectOf(idn)] = true
+						}
 					}
 				}
 			case *ast.ForStmt:
@@ -213,6 +221,10 @@ func c04r9(c *core.Ctx) {
 			}
 			for _, x := range exprChain(m, f, e, 0) {
 				switch y := ast.Unparen(x).(type) {
+				case *ast.Ident:
+					if elemVars[m.Info.ObjectOf(y)] {
+						injective = true
+					}
 				case *ast.IndexExpr:
 					if idn, ok := ast.Unparen(m.StripConv(y.Index)).(*ast.Ident); ok && loopVars[m.Info.ObjectOf(idn)] {
 						injective = true
@@ -230,7 +242,7 @@ func c04r9(c *core.Ctx) {
 		scan(X, 0)
 		switch {
 		case injective:
-			c.OK("C04/R9", subject, c.At(call.Pos()), "the container is selected by the loop variable itself: one container per iteration")
+			c.OK("C04/R9", subject, c.At(call.Pos()), "the container is selected by the loop variable (index or element) itself: one container per iteration")
 		case guarded():
 			c.OK("C04/R9", subject, c.At(call.Pos()), "dominated by a negative membership test of the same id in the same container")
 		default:
